@@ -557,52 +557,73 @@ def norm(line):
     return line.split()
 
 
+HANG = {"first_stage_cpu_s": 10, "confirm_cpu_s": 30, "max_confirmations_per_run": 3, "max_overruns_per_run": 6, "max_crashes_per_form": 4,
+        "confirmed": [], "overruns": 0, "forms_stopped": {}}        # shared by ALL streams of a run: the cost of a hanging change is bounded
+
 def run_binary(chk, binary, lines, label, inconclusive):
-    """run the harness on the lines; locate crashes (each is a result), CPU-budget overruns (re-run alone with a larger
-    budget before being believed) and tooling time-outs / kills (inconclusive).  Returns one output string per line."""
-    iout, crashed, start = [], 0, 0
-    while start < len(lines):
-        rc, o, ierr = vf.run_lines(binary, "".join(lines[start:]), timeout=3000)
+    """run the harness on the lines; locate crashes (each is a result), CPU-budget overruns (re-run alone with a larger budget
+    before being believed) and tooling time-outs / kills (inconclusive).  Returns one output string per line.
+    Bounded cost: after the FIRST confirmed `does not return` of a call form (or 4 crashes of it) the form is not driven any
+    more in this run, in any stream (remaining cases NOT-RUN, recorded); at most 3 confirmations (10 s + 30 s CPU each) and 6
+    first-stage overruns per run, after which the stream stops and is recorded as inconclusive."""
+    out = [None] * len(lines)
+    form_of = [l.split(" ", 1)[0] for l in lines]
+    pending = [i for i in range(len(lines)) if form_of[i] not in HANG["forms_stopped"]]
+    crashes = {}
+    def stop_form(f, why):
+        HANG["forms_stopped"][f] = why
+    while pending:
+        rc, o, ierr = vf.run_lines(binary, "".join(lines[i] for i in pending), timeout=3000)
         hung = bool(o) and o[-1] == "CPU-BUDGET-EXCEEDED"
         if hung:
             o = o[:-1]
-        iout += o
-        if len(iout) >= len(lines):
+        for k, line in enumerate(o[:len(pending)]):
+            out[pending[k]] = line
+        if len(o) >= len(pending):
             break
+        bad, rest = pending[len(o)], pending[len(o) + 1:]
+        f = form_of[bad]
         if rc == 124 or "[timeout]" in (ierr or ""):
-            inconclusive.append("%s: harness timed out (wall clock) after %d of %d cases: the remaining cases were not compared" % (label, len(iout), len(lines)))
+            inconclusive.append("%s: harness timed out (wall clock) with %d cases left: they were not compared" % (label, len(rest) + 1))
             break
         if rc in (-9, 137, -15, 143):          # killed from outside (OOM killer, operator): says nothing about givaro
-            inconclusive.append("%s: harness was killed (rc=%s) after %d of %d cases: the remaining cases were not compared" % (label, rc, len(iout), len(lines)))
+            inconclusive.append("%s: harness was killed (rc=%s) with %d cases left: they were not compared" % (label, rc, len(rest) + 1))
             break
         if rc == 0:
-            chk.broke("%s: harness stopped early without an error (rc=0, %d/%d lines)" % (label, len(iout), len(lines)), ierr)
+            chk.broke("%s: harness stopped early without an error (rc=0, %d cases left)" % (label, len(rest) + 1), ierr)
             break
-        if crashed >= 25:
-            chk.notes.append("%s: more than 25 crashes / overruns of the implementation in one chunk: %d cases not run" % (label, len(lines) - len(iout)))
-            break
-        crashed += 1
         if hung and rc == 97:
-            # one case used more CPU time than the budget: run it alone with ten times the budget before reporting it
-            os.environ["C02_CPU_BUDGET"] = "120"
-            try:
-                rc2, o2, _ = vf.run_lines(binary, lines[len(iout)], timeout=3000)
-            finally:
-                os.environ.pop("C02_CPU_BUDGET", None)
-            if rc2 == 0 and len(o2) == 1:
-                iout.append(o2[0])
-            elif rc2 == 97:
-                iout.append("DOES-NOT-RETURN (more than 120 s of CPU time for this one call)")
-            elif rc2 == 124:
-                inconclusive.append("%s: re-run of a slow case timed out (wall clock)" % label)
-                iout.append("NOT-RUN")
+            HANG["overruns"] += 1
+            if len(HANG["confirmed"]) >= HANG["max_confirmations_per_run"] or HANG["overruns"] > HANG["max_overruns_per_run"]:
+                stop_form(f, "CPU budget exceeded again after the cap on confirmations was reached: not confirmed, form not driven any further")
+                inconclusive.append("%s: form %s exceeded the CPU budget after the cap of %d confirmed hangs per run: its remaining cases were not run" % (label, f, HANG["max_confirmations_per_run"]))
+                if HANG["overruns"] > HANG["max_overruns_per_run"]:
+                    inconclusive.append("%s: more than %d CPU-budget overruns in this run: the stream was stopped with %d cases left" % (label, HANG["max_overruns_per_run"], len(rest)))
+                    break
             else:
-                iout.append("CRASH(rc=%s)" % rc2)
+                # one case used more CPU time than the first-stage budget: run it alone with the larger budget before reporting it
+                os.environ["C02_CPU_BUDGET"] = str(HANG["confirm_cpu_s"])
+                try:
+                    rc2, o2, _ = vf.run_lines(binary, lines[bad], timeout=900)
+                finally:
+                    os.environ.pop("C02_CPU_BUDGET", None)
+                if rc2 == 0 and len(o2) == 1:
+                    out[bad] = o2[0]
+                elif rc2 == 97:
+                    out[bad] = "DOES-NOT-RETURN (more than %d s of CPU time for this one call)" % HANG["confirm_cpu_s"]
+                    HANG["confirmed"].append(lines[bad].strip() + " [" + label + "]")
+                    stop_form(f, "does not return on `%s` (%s): the remaining cases of this form were not run" % (lines[bad].strip(), label))
+                elif rc2 == 124:
+                    inconclusive.append("%s: re-run of a slow case timed out (wall clock)" % label)
+                else:
+                    out[bad] = "CRASH(rc=%s)" % rc2
         else:
-            iout.append("CRASH(rc=%s)" % rc)
-        start = len(iout)
-    iout += ["NOT-RUN"] * (len(lines) - len(iout))
-    return iout[:len(lines)]
+            out[bad] = "CRASH(rc=%s)" % rc
+            crashes[f] = crashes.get(f, 0) + 1
+            if crashes[f] >= HANG["max_crashes_per_form"]:
+                stop_form(f, "crashed %d times (last: `%s`, rc=%s, %s): the remaining cases of this form were not run" % (crashes[f], lines[bad].strip(), rc, label))
+        pending = [i for i in rest if form_of[i] not in HANG["forms_stopped"]]
+    return [x if x is not None else "NOT-RUN" for x in out]
 
 
 def run_stream(chk, st, himpl, drv, all_cases, label, inconclusive, dbg=False):
@@ -815,7 +836,9 @@ def main(tier, replay=None):
     dist_form, dist_class, dist_sign = st["dist_form"], st["dist_class"], st["dist_sign"]
     # 6. floors: what must actually have been compared for this run to count; tooling problems that push a stream below its floor
     #    are reported prominently and are NOT a pass of that stream
-    nexp = len(all_cases)
+    nexp = len([c for c in all_cases if c[0] not in HANG["forms_stopped"]])       # a form stopped after a confirmed hang / repeated crash is a finding, not a tooling gap
+    chk.cov["hang_handling"] = {k: HANG[k] for k in ("first_stage_cpu_s", "confirm_cpu_s", "max_confirmations_per_run", "max_overruns_per_run", "max_crashes_per_form")}
+    chk.cov["hang_handling"].update({"confirmed_not_returning": HANG["confirmed"], "cpu_budget_overruns": HANG["overruns"], "forms_not_driven_further": HANG["forms_stopped"]})
     floors = {"oracle_comparisons": (st["noracle"], int(0.98 * nexp)), "correspondence_comparisons": (st["ncorr"], int(0.95 * nexp)),
               "asserts_on_comparisons": (st["ndbg"], 0 if replay else 1000), "theorems_rechecked": (chk.cov["discharged"], chk.cov["obligations"])}
     if replay:
